@@ -1,0 +1,11 @@
+//go:build verif
+
+package schema
+
+// VerifSetMaxStaticSetMembers sets the static-set splitting threshold and
+// returns the previous value.
+func VerifSetMaxStaticSetMembers(n int) int {
+	old := maxStaticSetMembers
+	maxStaticSetMembers = n
+	return old
+}
